@@ -189,6 +189,22 @@ func (x *Exec) stmt(fr *Frame, s ast.Stmt, st *State, k func(*State)) {
 					if id, ok := l.(*ast.Ident); ok && id.Name != "_" {
 						if obj := fr.pkg.TypesInfo.Defs[id]; obj != nil {
 							st2.vars[obj] = x.freshValue(st2, x.resolveType(obj.Type()), id.Name)
+							// "ghost recv-assume <var> <expr>": the channel invariant of what is received into <var>
+							if fr.top != nil && fr.depth == 0 {
+								for _, g := range fr.top.Contract.Ghost {
+									pre := "recv-assume " + id.Name + " "
+									if strings.HasPrefix(g, pre) {
+										e, err := ParseSpec(strings.TrimPrefix(g, pre))
+										if err != nil {
+											panic(x.unsupported("recv-assume: " + err.Error()))
+										}
+										env := x.localEnv(fr, st2, cc)
+										env.vars[id.Name] = st2.vars[obj]
+										st2.assumeRaw(x.specBool(env, e))
+										x.Trusted["channel invariant assumed at receive in "+fr.top.Name+": "+strings.TrimPrefix(g, pre)] = true
+									}
+								}
+							}
 						}
 					}
 				}
@@ -800,8 +816,10 @@ func (x *Exec) forStmt(fr *Frame, s *ast.ForStmt, st *State, k func(*State)) {
 		x.assumeInvariants(fr, st, lc, s)
 		head := func(st *State) {
 			v0 := x.variantTerm(fr, st, lc, s)
+			heldAtHead := append([]heldLock(nil), st.held...)
 			afterBody := func(st *State) {
 				post := func(st *State) {
+					x.checkLoopBalance(fr, st, heldAtHead, lc, s)
 					x.checkInvariants(fr, st, lc, "inv-keep", s)
 					if v0 != nil && fr.depth == 0 {
 						v1 := x.variantTerm(fr, st, lc, s)
@@ -896,7 +914,9 @@ func (x *Exec) rangeStmt(fr *Frame, s *ast.RangeStmt, st *State, k func(*State))
 		}
 		x.assumeInvariants(fr, st, lc, s)
 		v0 := x.variantTerm(fr, st, lc, s)
+		heldAtHead := append([]heldLock(nil), st.held...)
 		afterBody := func(st *State) {
+			x.checkLoopBalance(fr, st, heldAtHead, lc, s)
 			x.checkInvariants(fr, st, lc, "inv-keep", s)
 			if v0 != nil && fr.depth == 0 {
 				v1 := x.variantTerm(fr, st, lc, s)
@@ -973,6 +993,9 @@ func (x *Exec) rangeStmt(fr *Frame, s *ast.RangeStmt, st *State, k func(*State))
 				body(st)
 			}, k)
 		case MapV:
+			if r.Const == nil {
+				x.guardCheck(st, mapKeyStr(r), r.ID, false)
+			}
 			vis := st.ghostTerm("visited")
 			// exit: every present key visited; iterate: some present, unvisited key
 			exit := st.clone()
